@@ -28,6 +28,6 @@ def run(ctx):
         evaluations=s.get("c11.files", 0) + s.get("c11.big.files", 0),
         floors={"c11.files": 600, "selfcheck.sample_files_agree": 4, "selfcheck.agree.v1": 1, "c11.nonmaximal_shares": 5000, "c11.single_entry_blocks": 500,
                 "c11.separator.last-key+00": 300, "c11.separator.shortest-separator": 50, "c11.separator.beyond-last-key": 100, "c11.directed_gap_sequences": 2000,
-                "c11.big.files": 3, "c11.big.restart_points_above_4GiB": 4, "c11.big.straddling_blocks_32bit_restarts_over_4GiB": 1, "c11.files_read_with_verify_checksums": 200, "c11.restart_density.permille_0": 50,
+                "c11.big.files": 3, "c11.big.restart_points_above_4GiB": 4, "c11.big.straddling_blocks_32bit_restarts_over_4GiB": 1, "c11.big.entry_area_exactly_UINT32_MAX": 1, "c11.big.entry_with_suffix_plus_value_ge_2^32": 1, "c11.files_read_with_verify_checksums": 200, "c11.restart_density.permille_0": 50,
                 "c11.restart_density.permille_1000": 50},
         extra={"files_by_version_and_compression": {k[len("c11.files."):]: v for k, v in s.items() if k.startswith("c11.files.v")}})
